@@ -250,6 +250,10 @@ func (ir *IntrospectionResolver) resolveType(schema *ast.Schema, typ *ast.Type, 
 			if namedType.Kind == ast.Union || namedType.Kind == ast.Interface {
 				types := []map[string]interface{}{}
 				for _, t := range schema.PossibleTypes[namedType.Name] {
+					// possible types are object types; the parser also files the interfaces implementing an interface there
+					if t.Kind != ast.Object {
+						continue
+					}
 					types = append(types, ir.resolveType(schema, &ast.Type{NamedType: t.Name}, f.SelectionSet))
 				}
 				result[f.Alias] = types
